@@ -1052,7 +1052,7 @@ fn run_fat<const P: usize, const Q: usize>(case: &Case) {
                 IntoConcurrentIter::into_con_iter(fat(vals))
             });
         }
-        (Src::Array(vals), _) if vals.len() <= 8 && P < 1024 => with_array!(fat(vals), arr, {
+        (Src::Array(vals), _) if vals.len() <= 8 && P < 4096 => with_array!(fat(vals), arr, {
             let mut once = Some(arr);
             run_generic(case, false, &mut || {
                 let arr = once.take().expect("array kinds have one slot");
@@ -1077,6 +1077,9 @@ fn run_fat<const P: usize, const Q: usize>(case: &Case) {
 pub fn run_case(case: &Case) {
     if case.fat == 128 {
         return run_fat::<112, 120>(case);
+    }
+    if case.fat == 2048 {
+        return run_fat::<2032, 2040>(case);
     }
     if case.fat == 65536 {
         return run_fat::<65520, 65528>(case);
